@@ -243,7 +243,7 @@ int main(int argc, char** argv)
                bool md;
                std::string id = "LPFreadValue_rat:" + show(s.substr(0, refToken(s.c_str(), md)));
 
-               if(std::find(seenIds.begin(), seenIds.end(), id) == seenIds.end() && failures.size() < 40)
+               if(std::find(seenIds.begin(), seenIds.end(), id) == seenIds.end() && failures.size() < 200)
                {
                   seenIds.push_back(id);
                   failures.push_back("{\"id\":\"" + id + "\",\"input\":\"" + show(s) + "\",\"what\":\"" + e + "\"}");
